@@ -1030,7 +1030,12 @@ class PseudoNetCDFFile(PseudoNetCDFSelfReg, object):
                 isinstance(val, (PseudoNetCDFVariable,)) and
                 val.dimensions != ()
             ):
-                outf.variables[key] = val
+                if any(val is v for v in self.variables.values()):
+                    # a bare name ('C = A'): the result gets its own copy,
+                    # not the input's variable object
+                    outf.copyVariable(val, key=key)
+                else:
+                    outf.variables[key] = val
             else:
                 outf.createVariable(key, val.dtype.char,
                                     dimt, values=val, **propd)
